@@ -8,6 +8,7 @@ import ast
 
 from .. import astutil as A
 from ..fa import FA
+from .valeq import check_typed_identity
 from .ladders import extract_ladder, check_ladder_order, repo_subclass_pairs
 
 AH = "reference.ArgumentHasher"
@@ -214,3 +215,4 @@ def check(ck):
         "clone_with(partial_args=new_partial_args, partial_kwargs=new_partial_kwargs)" in txtp and "fn_reference.partial_args or ()" in txtp
     ck.ob(R3, pa.key(None, "accumulates"), okpa, "partial() appends positional and updates keyword partials on a clone" if okpa else
           "partial() no longer accumulates (existing partials + new ones) into the clone", pa.where())
+    check_typed_identity(ck, "C04.R4", ("reference", "base"))
